@@ -274,3 +274,11 @@ Theorem C02_primb_idx_of_mono : forall a lo u v i j, wf_from lo a ->
   idx_of a u = Some i -> idx_of a v = Some j -> u < v -> i < j.
 Proof. exact idx_of_mono. Qed.
 Print Assumptions C02_primb_idx_of_mono.
+
+(* -- third deviation: a multi-interval alphabet above U+00FF gets no character map; characters collide -- *)
+Theorem C02_primb_uper_holes_above_255_refuted :
+  uper_leaf false holes_l (octets_of KBMP [256; 512]) <> spec_uper_km holes_l [256; 512] /\
+  uper_leaf false holes_l (octets_of KBMP [256; 512]) = uper_leaf false holes_l (octets_of KBMP [256; 256]) /\
+  spec_uper_km holes_l [256; 512] = Some (nbits 8 2 ++ nbits 3 0 ++ nbits 3 4).
+Proof. exact uper_holes_above_255_refuted. Qed.
+Print Assumptions C02_primb_uper_holes_above_255_refuted.
